@@ -56,6 +56,12 @@ def run(tier):
         ops = [{"op": "write", "rec": t, "j": 0} for t in recs] + [{"op": "close", "rec": "", "j": 0}]
         base = {"ops": ops, "comp": comp, "wbuf": 4096, "rbuf": rng.choice([16, 4096]), "directio": False, "readprog": [], "seekall": False, "seeks": []}
         batches.append(("zerolead-%d" % comp, recs, [dict(base, damage="header", dmgstep=2), dict(base, damage="trunc", dmgstep=7)]))
+    # records above the readers' 512 KiB buffer-pool limit (uncompressed and compressed), cut at sampled lengths incl. inside the big payloads
+    recs = riorun.payload_family("big", rng)
+    for comp in ((0, 1, 2, 3) if thorough else (0, 2)):
+        ops = [{"op": "write", "rec": t, "j": 0} for t in ["r3", "r0", "r4", "r2", "r3"]] + [{"op": "close", "rec": "", "j": 0}]
+        base = {"ops": ops, "comp": comp, "wbuf": 4096, "rbuf": rng.choice([16, 4096]), "directio": False, "readprog": [], "seekall": False, "seeks": []}
+        batches.append(("bigrecs-%d" % comp, recs, [dict(base, damage="trunc", dmgstep=rng.choice([30011, 41017]))]))
     # files of the older format versions 1-3 (laid out by the harness), cut at every length: the completely contained records, then EOF or an error
     for ver in (1, 2, 3):
         recs = riorun.payload_family(["tiny", "mixed", "compressible"][ver - 1], rng)
